@@ -74,7 +74,8 @@ pub open spec fn on_error_post(c0: Commands, v0: Map<String, String>, s0: Map<St
         exists|args: Seq<String>, res: CommandResult|
             on_error_args_ok(args, error, meta)
             && #[trigger] c0.lookup("on_error"@)->0.run_rel(
-                CallIn { arguments: bind_spec(v0, Some(args), InstructionMetaInfo { line: None, source: None }), line: 0, output_variable: None,
+                // C03/C10: the message, line and file are reported as they are (they are data, not written arguments)
+                CallIn { arguments: args, line: 0, output_variable: None,
                          variables: v0, state: s0, commands: c0, env: e0, instructions: instrs },
                 res,
                 CallOut { variables: v1, state: s1, commands: c1, env: e1 })
